@@ -668,6 +668,55 @@ def gen_core_sheet(rng, n_rows, wf=True, special_text=True, has_group=False, cla
     return rows, g
 
 
+def gen_star_sheet(rng, n_edges, clash_names=False):
+    """ONE decision and n_edges edges leaving it, written in collide mode with a vocabulary of one or two words: what
+    FlowParser does with such a sheet is a sequence of add_exit calls on one long-lived node group, so the names the
+    tool invented for the earlier edges are the history every later edge meets.  The decision is a wait (with or
+    without timeout), a value / group / random split, an action row (implicit router), a no_op decision or an outcome
+    row; every edge leads to a row of its own (a message), now and then to an earlier one (go_to) or to an exit.
+    Every prefix rows[:k] (k >= the index returned) is a sheet in its own right: the state after k - 1 edges."""
+    g = Gen(rng, wf=True, special_text=False, has_group=rng.random() < 0.4, clash_names=clash_names, collide=True)
+    g.vocab = g.vocab[:rng.choice([1, 1, 2])]
+    t = rng.choice(["wait_for_response"] * 3 + ["split_by_value"] * 2 + ["split_by_group", "split_random", "send_message", "no_op",
+                    "start_new_flow", "call_webhook"])
+    if t == "no_op":
+        first, inf0 = g.node_row("send_message", "r0")
+        first["edges"] = [edge("start")]
+        first.pop("node_uuid", None)
+        rows = [first, {"type": "no_op", "row_id": "d", "edges": [edge("r0")]}]
+        src = "d"
+        g.info[src] = g.new_info("no_op_dec")
+    else:
+        row, inf = g.node_row(t, "d")
+        row["edges"] = [edge("start")]
+        row.pop("node_uuid", None)
+        inf["no_cases"] = False
+        rows = [row]
+        src = "d"
+        g.info[src] = inf
+    g.order = [src]
+    g.tag("star: " + t)
+    base = len(rows)
+    msgs = []
+    tries = 0
+    while len(rows) - base < n_edges and tries < n_edges * 6:
+        tries += 1
+        c = g.cond_from(src)
+        if c is None:
+            continue
+        c["from"] = src
+        x = rng.random()
+        if x < 0.1 and msgs:
+            rows.append({"type": "go_to", "row_id": "", "edges": [c], "arg": [rng.choice(msgs)]})
+        elif x < 0.2:
+            rows.append({"type": rng.choice(["hard_exit", "loose_exit"]), "row_id": "", "edges": [c]})
+        else:
+            rid = "m%d" % len(rows)
+            rows.append({"type": "send_message", "row_id": rid, "edges": [c], "arg": "message " + rid})
+            msgs.append(rid)
+    return rows, base, g
+
+
 # ---------------------------------------------------------------- sugar: loops, blocks, include_if
 # A sugared sheet is a tree: items are
 #   ("row", row)                              plain row (may carry include_if)
